@@ -1,6 +1,7 @@
 import Juniper.Generated.SkeletonPar
+import Juniper.Proofs.SkeletonParDo
 /-!
-# Control-skeleton ties for `parallel.Do` / `DoContext` / `Map` / `MapContext` / `MapIterator` / `MapStream`
+# Control-skeleton ties for `parallel.Do` / `DoContext` / `Map` / `MapContext`
 
 The LTSs `Juniper.Model.ParDo` and `Juniper.Model.ParMap` take guards, counter expressions, channel
 capacities and `select` tables from the regenerated facts (`Juniper.Gen.Par`), but the *order of the
@@ -12,164 +13,17 @@ the models were written against. Renaming a variable or rewriting a condition le
 added, removed or reordered statement, an added early return or fast path, a loop gaining a
 condition, a statement moving into or out of a goroutine makes the lemma of that body fail.
 
-`doCode_sound`, `dcCode_sound`, `map_wrappers_structural` (C13) and `stream_code_sound`,
-`iter_code_sound` (C14, MapStream clauses of C08/C09) are stated `under` these ties, so every property
-theorem of these components depends on them.
+The C13 soundness tactics `pardo_sound`, `wrapper_sound` (`Proofs/ParDoBasic.lean`, `Proofs/ParWrap.lean`;
+ties of `Do` / `DoContext` / `Map` / `MapContext` in `Proofs/SkeletonParDo.lean`) go `under` their ties, so
+every property theorem of C13 depends on them. The skeletons of `MapIterator` / `MapStream` /
+`mapIterator.Next` / `mapStream.Next` / `mapStream.Close` (C14, MapStream clauses of C08/C09) are pinned in
+`Proofs/ParMapTies.lean` (`IterSkeletons`, `StreamSkeletons`) and discharged by `decide` *inside* every
+property theorem of `Props/C14.lean` / `Props/C14Progress.lean` (`iter_ties` / `stream_ties`).
 -/
 namespace Juniper.Proofs.SkeletonPar
 open Juniper.Gen.SkeletonPar
 
-/-- `p`, claimed only for a source whose control skeleton is as the tie `k` says. Conclusions about
-the code "as it is in the source now" go through this lemma so that they depend on the tie. -/
-theorem under {k p : Prop} (_tie : k) (h : p) : p := h
-
-/-! ### parallel.Do -/
-
-/-- `Do`: clamp low, clamp high, sequential fast path (`for …; return`), counter, wait group,
-`wg.Add`, spawn loop of `go` statements, `wg.Wait()`, `return`. -/
-theorem pskelDo_tie : pskelDo =
-    ["if{assign}", "if{assign}", "if{for{..};return}", "define", "decl", "mcall", "for{go{..}}", "mcall",
-     "return"] := by
-  decide
-
-/-- sequential path of `Do`: `for … { f(i) }; return` -/
-theorem pskelDoSeq_tie : pskelDoSeq =
-    ["for{call}", "return"] := by decide
-
-/-- worker of `Do`: `defer wg.Done()`, then forever: fetch, `if … { return }`, `f(i)` -/
-theorem pskelDoWorker_tie : pskelDoWorker =
-    ["defer", "forever{define;if{return};call}"] := by decide
-
-/-- the three bodies of `parallel.Do` the LTS hard-wires -/
-theorem pskelDo_ties :
-    pskelDo =
-    ["if{assign}", "if{assign}", "if{for{..};return}", "define", "decl", "mcall", "for{go{..}}", "mcall",
-     "return"]
-    ∧ pskelDoSeq =
-    ["for{call}", "return"]
-    ∧ pskelDoWorker =
-    ["defer", "forever{define;if{return};call}"] :=
-  ⟨pskelDo_tie, pskelDoSeq_tie, pskelDoWorker_tie⟩
-
-/-! ### parallel.DoContext -/
-
-/-- `DoContext`: clamp low, clamp high, sequential fast path, counter, errgroup, spawn loop of
-`eg.Go(func …)`, `return eg.Wait()`. -/
-theorem pskelDoContext_tie : pskelDoContext =
-    ["if{assign}", "if{assign}", "if{for{..};return}", "define", "define", "for{mcall{..}}", "return"] := by
-  decide
-
-/-- sequential path of `DoContext`: `for … { err := f(ctx, i); if err != nil { return err } }; return nil` -/
-theorem pskelDoContextSeq_tie : pskelDoContextSeq =
-    ["for{define;if{return}}", "return"] := by decide
-
-/-- worker of `DoContext`: forever: fetch, done?, cancelled?, call, failed? -/
-theorem pskelDoContextWorker_tie : pskelDoContextWorker =
-    ["forever{define;if{return};if{return};define;if{return}}"] := by decide
-
-theorem pskelDoContext_ties :
-    pskelDoContext =
-    ["if{assign}", "if{assign}", "if{for{..};return}", "define", "define", "for{mcall{..}}", "return"]
-    ∧ pskelDoContextSeq =
-    ["for{define;if{return}}", "return"]
-    ∧ pskelDoContextWorker =
-    ["forever{define;if{return};if{return};define;if{return}}"] :=
-  ⟨pskelDoContext_tie, pskelDoContextSeq_tie, pskelDoContextWorker_tie⟩
-
-/-! ### Map / MapContext -/
-
-/-- `Map`: allocate, `Do(…, func(i) { out[i] = f(in[i]) })`, `return out` -/
-theorem pskelMap_tie : pskelMap =
-    ["define", "call{assign}", "return"] := by decide
-
-/-- `MapContext`: allocate, `err := DoContext(…, func … { var err error; out[i], err = …; return err })`,
-`if err != nil { return nil, err }`, `return out, nil` -/
-theorem pskelMapContext_tie : pskelMapContext =
-    ["define", "define{decl;assign;return}", "if{return}", "return"] := by decide
-
-/-! ### parallel.MapIterator -/
-
-/-- `MapIterator`: two clamps, `in`, the iterator value (with the heap comparison), the condition
-variable, the dispatcher goroutine, `nDone`, the spawn loop, `return`. -/
-theorem pskelMapIterator_tie : pskelMapIterator =
-    ["if{assign}", "if{assign}", "define", "define{return}", "assign", "go{define;forever{..};call}",
-     "define", "for{go{..}}", "return"] := by decide
-
-/-- dispatcher of `MapIterator`: `i := 0`; forever: pull, `if !ok { break }`, Lock, `for full { Wait }`,
-`inFlight++`, Unlock, send, `i++`; `close(in)`. -/
-theorem pskelMapIteratorDispatcher_tie : pskelMapIteratorDispatcher =
-    ["define", "forever{define;if{break};mcall;for{mcall};assign;mcall;send;assign}", "call"] := by decide
-
-/-- worker of `MapIterator`: `for item := range in { u := f(…); ch <- … }`, then the last one closes `ch`. -/
-theorem pskelMapIteratorWorker_tie : pskelMapIteratorWorker =
-    ["range{define;send}", "if{call}"] := by decide
-
-/-- `mapIterator.Next`: forever: `if ready { pop; i++; Lock; inFlight--; if … { Signal }; Unlock; return }`,
-receive, `if !ok { var zero; return }`, push. -/
-theorem pskelMapIteratorNext_tie : pskelMapIteratorNext =
-    ["forever{if{define;assign;mcall;assign;if{mcall};mcall;return};define;if{decl;return};mcall}"] := by decide
-
-theorem pskelMapIterator_ties :
-    pskelMapIterator =
-    ["if{assign}", "if{assign}", "define", "define{return}", "assign", "go{define;forever{..};call}",
-     "define", "for{go{..}}", "return"]
-    ∧ pskelMapIteratorDispatcher =
-    ["define", "forever{define;if{break};mcall;for{mcall};assign;mcall;send;assign}", "call"]
-    ∧ pskelMapIteratorWorker =
-    ["range{define;send}", "if{call}"]
-    ∧ pskelMapIteratorNext =
-    ["forever{if{define;assign;mcall;assign;if{mcall};mcall;return};define;if{decl;return};mcall}"] :=
-  ⟨pskelMapIterator_tie, pskelMapIteratorDispatcher_tie, pskelMapIteratorWorker_tie, pskelMapIteratorNext_tie⟩
-
-/-! ### parallel.MapStream -/
-
-/-- `MapStream`: two clamps, `in`, `ready`, the token loop, `WithCancel`, `errgroup.WithContext`, the
-dispatcher `eg.Go(func …)`, `c`, `nDone`, the spawn loop of `eg.Go(func …)`, `return &mapStream{…}`. -/
-theorem pskelMapStream_tie : pskelMapStream =
-    ["if{assign}", "if{assign}", "define", "define", "for{send}", "define", "define",
-     "mcall{defer;defer;define;forever{..};return}", "define", "define", "for{mcall{..}}", "return{return}"] := by
-  decide
-
-/-- dispatcher of `MapStream`: `defer s.Close()`, `defer close(in)`, `i := 0`; forever: pull,
-`if End { break } else if err { return }`, `select { ctx.Done: return; ready }`,
-`select { ctx.Done: return; in <- … }`, `i++`; `return nil`. -/
-theorem pskelMapStreamDispatcher_tie : pskelMapStreamDispatcher =
-    ["defer", "defer", "define",
-     "forever{define;if{break}else{if{return}};select{recv{return};recv{}};select{recv{return};send{}};assign}",
-     "return"] := by decide
-
-/-- worker of `MapStream`: `defer func() { if last { close(c) } }()`; `for item := range in { u, err := f(…);
-if err != nil { return err }; select { c <- …; ctx.Done: return } }`; `return nil`. -/
-theorem pskelMapStreamWorker_tie : pskelMapStreamWorker =
-    ["defer{if{call}}", "range{define;if{return};select{recv{return};send{}}}", "return"] := by decide
-
-/-- `mapStream.Next`: `var zero`; forever: `if ready { pop; i++; release; return }`,
-`select { item, ok := <-s.c: if !ok { err := Wait(); if err != nil { return }; return }; push  |  ctx.Done: return }`. -/
-theorem pskelMapStreamNext_tie : pskelMapStreamNext =
-    ["decl",
-     "forever{if{define;assign;send;return};select{recv{if{define;if{return};return};mcall};recv{return}}}"] := by
-  decide
-
-/-- `mapStream.Close`: `s.cancel()`, `_ = s.eg.Wait()` and nothing else. -/
-theorem pskelMapStreamClose_tie : pskelMapStreamClose =
-    ["mcall", "assign"] := by decide
-
-theorem pskelMapStream_ties :
-    pskelMapStream =
-    ["if{assign}", "if{assign}", "define", "define", "for{send}", "define", "define",
-     "mcall{defer;defer;define;forever{..};return}", "define", "define", "for{mcall{..}}", "return{return}"]
-    ∧ pskelMapStreamDispatcher =
-    ["defer", "defer", "define",
-     "forever{define;if{break}else{if{return}};select{recv{return};recv{}};select{recv{return};send{}};assign}",
-     "return"]
-    ∧ pskelMapStreamWorker =
-    ["defer{if{call}}", "range{define;if{return};select{recv{return};send{}}}", "return"]
-    ∧ pskelMapStreamNext =
-    ["decl",
-     "forever{if{define;assign;send;return};select{recv{if{define;if{return};return};mcall};recv{return}}}"]
-    ∧ pskelMapStreamClose =
-    ["mcall", "assign"] :=
-  ⟨pskelMapStream_tie, pskelMapStreamDispatcher_tie, pskelMapStreamWorker_tie, pskelMapStreamNext_tie,
-   pskelMapStreamClose_tie⟩
+-- `under` and the ties of `Do` / `DoContext` / `Map` / `MapContext` (C13) live in `Proofs/SkeletonParDo.lean`
+-- (same namespace), so that a change confined to MapIterator / MapStream does not stop the C13 build.
 
 end Juniper.Proofs.SkeletonPar
